@@ -22,7 +22,10 @@ LEVEL = 'model_checking'
 # (text, typed value) pools; every text has exactly one reading by LAS conventions
 VALUES = [('12', 12), ('-7', -7), ('1.50', 1.5), ('-0.25', -0.25), ('1.0E+03', 1000.0), ('YES', True), ('No', False),
           ('ANY OIL CO. LTD', 'ANY OIL CO. LTD'), ('12:30:45', '12:30:45'), ('13-DEC-86', '13-DEC-86'), ('a:b', 'a:b'),
-          ('x.y.z', 'x.y.z'), ('two  spaces', 'two  spaces'), ('', ''), ('100.0 M', '100.0 M')]
+          ('x.y.z', 'x.y.z'), ('two  spaces', 'two  spaces'), ('', ''), ('100.0 M', '100.0 M'),
+          # words near the yes/no typing that are text: only YES and NO (any case) are the LAS flags
+          ('Y', 'Y'), ('N', 'N'), ('TRUE', 'TRUE'), ('false', 'false'), ('ON', 'ON'), ('NONE', 'NONE'), ('yes', True), ('NO', False), ('YES PLEASE', 'YES PLEASE'), ('NOT', 'NOT'),
+          ('1E', '1E'), ('0x10', '0x10'), ('+5', 5), ('007', 7), ('-0', 0), ('.5', 0.5), ('5.', 5.0)]
 UNITS = ['', 'M', 'FT', 'V/V', 'OHM.M', 'US/F', 'K/M3', '%']
 DESCS = ['', 'START DEPTH', 'depth. of (well)', 'x - y', '1  2', 'API code', 'trailing dot.']
 MNEMS_W = ['STRT', 'STOP', 'STEP', 'NULL', 'COMP', 'WELL', 'FLD', 'LOC']
